@@ -42,7 +42,8 @@ import "bytes"
 //@   let p0 = pos(source)
 //@   ensures header: result1 == nil ==> result0 != nil && result0.Header != nil && headerRead(source, p0, result0.Header) && specVersion(result0.Header.Version) && ite(result0.Header.IsResponse, specResponseOpCode(result0.Header.OpCode), specRequestOpCode(result0.Header.OpCode))
 //@   ensures raw: result1 == nil ==> result0 != nil && result0.Header != nil && result0.Header.BodyLength >= 0 && len(result0.Body) == int(result0.Header.BodyLength) && pos(source) == p0 + ite(result0.Header.Version >= primitive.ProtocolVersion3, int(9), int(8)) + int(result0.Header.BodyLength)
-//@   ensures bytes: result1 == nil ==> forall k int :: 0 <= k && k < len(result0.Body) ==> result0.Body[k] == rbyte(source, pos(source) - len(result0.Body) + k)
+//@   ensures bytes3: result1 == nil && result0.Header.Version >= primitive.ProtocolVersion3 ==> forall k int :: 0 <= k && k < len(result0.Body) ==> result0.Body[k] == rbyte(source, p0 + 9 + k)
+//@   ensures bytes2: result1 == nil && result0.Header.Version < primitive.ProtocolVersion3 ==> forall k int :: 0 <= k && k < len(result0.Body) ==> result0.Body[k] == rbyte(source, p0 + 8 + k)
 
 // converting to raw form keeps the header object, and the length it declares is the length of the produced body
 //@ func (*codec).ConvertToRawFrame
